@@ -636,3 +636,102 @@ Proof.
   - eapply veq_trans; [|exact N5]. apply normal_dir_proper; [rewrite O0; apply veq_refl|exact C|exact M1].
 Qed.
 End BaryS.
+
+(* ---- normalize_array: the ranks are exactly 0 .. (number of distinct values) - 1 ------------------------------- *)
+Definition ndistinct (l : list nat) : nat := length (nodup Nat.eq_dec l).
+
+Lemma rank_lt_ndistinct l x : In x l -> rank_in l x < ndistinct l.
+Proof.
+  intros Hx. unfold rank_in, ndistinct.
+  set (A := nodup Nat.eq_dec (filter (fun z => z <? x) l)).
+  assert (N : NoDup (x :: A)).
+  { constructor; [|apply NoDup_nodup]. intro H. apply nodup_In, filter_In in H as [_ H]. apply Nat.ltb_lt in H. lia. }
+  assert (I : incl (x :: A) (nodup Nat.eq_dec l)).
+  { intros z [<-|Hz]; apply nodup_In; [exact Hx|]. apply nodup_In, filter_In in Hz as [Hz _]. exact Hz. }
+  pose proof (NoDup_incl_length N I) as L. cbn in L. lia.
+Qed.
+
+Theorem normalize_array_range l :
+  (forall r, In r (normalize_array l) -> r < ndistinct l) /\
+  (forall r, r < ndistinct l -> In r (normalize_array l)).
+Proof.
+  split.
+  - intros r H. unfold normalize_array in H. apply in_map_iff in H as [x [<- Hx]]. apply rank_lt_ndistinct. exact Hx.
+  - set (D := nodup Nat.eq_dec l). set (R := map (rank_in l) D).
+    assert (ND : NoDup R).
+    { apply NoDup_map_inj; [|apply NoDup_nodup]. intros x y Hx Hy E. apply nodup_In in Hx, Hy.
+      destruct (Nat.lt_trichotomy x y) as [L|[Q|G]]; [|exact Q|].
+      - apply (rank_monotone l x y Hx Hy) in L. lia.
+      - apply (rank_monotone l y x Hy Hx) in G. lia. }
+    assert (IN : incl R (seq 0 (ndistinct l))).
+    { intros r H. apply in_map_iff in H as [x [<- Hx]]. apply nodup_In in Hx. apply in_seq.
+      pose proof (rank_lt_ndistinct l x Hx). lia. }
+    assert (LE : length (seq 0 (ndistinct l)) <= length R)
+      by (unfold R, D, ndistinct; rewrite seq_length, map_length; lia).
+    pose proof (NoDup_length_incl ND LE IN) as SUR.
+    intros r Hr. assert (Hin : In r R) by (apply SUR, in_seq; lia).
+    apply in_map_iff in Hin as [x [<- Hx]]. apply nodup_In in Hx. unfold normalize_array. apply in_map. exact Hx.
+Qed.
+
+Lemma lmax_le l B : (forall x, In x l -> x <= B) -> lmax l <= B.
+Proof.
+  unfold lmax. induction l as [|h r IH]; intros H; cbn; [lia|].
+  pose proof (H h (or_introl eq_refl)). assert (fold_right Nat.max 0 r <= B) by (apply IH; intros x Hx; apply H; right; exact Hx). lia.
+Qed.
+Lemma ndistinct_pos d : d <> [] -> 0 < ndistinct d.
+Proof.
+  destruct d as [|h r]; [congruence|]. intros _. unfold ndistinct.
+  assert (In h (nodup Nat.eq_dec (h :: r))) by (apply nodup_In; left; reflexivity).
+  destruct (nodup Nat.eq_dec (h :: r)); [destruct H|cbn; lia].
+Qed.
+
+Definition ubase (first : bool) (pm : nat) : nat := if first then 0 else pm + 1.
+
+Lemma block_range first pm d x :
+  In x (union_dom_of 0 pm first d) <-> ubase first pm <= x < ubase first pm + ndistinct d.
+Proof.
+  destruct (normalize_array_range d) as [A B]. unfold union_dom_of, ubase. destruct first.
+  - split; [intro H; apply A in H; lia|intro H; apply B; lia].
+  - rewrite in_map_iff. split.
+    + intros [r [<- Hr]]. apply A in Hr. lia.
+    + intros H. exists (x - (pm + 1)). split; [lia|apply B; lia].
+Qed.
+
+Lemma lmax_block first pm d : d <> [] ->
+  lmax (union_dom_of 0 pm first d) = ubase first pm + ndistinct d - 1.
+Proof.
+  intros Hd. pose proof (ndistinct_pos d Hd) as P. apply Nat.le_antisymm.
+  - apply lmax_le. intros x Hx. apply block_range in Hx. lia.
+  - apply lmax_ge. apply block_range. lia.
+Qed.
+
+Definition total_distinct (gs : list tgrid) : nat := fold_right Nat.add 0 (map (fun g => ndistinct (snd g)) gs).
+
+(* union with normalize_domain_indices=True: the indices of the union are exactly 0 .. N-1, N = total number of
+   domains over all input grids *)
+Theorem union_normalised : forall gs pm first, (forall g, In g gs -> snd g <> []) ->
+  forall x, In x (concat (union_doms 0 pm first gs)) <-> ubase first pm <= x < ubase first pm + total_distinct gs.
+Proof.
+  induction gs as [|g r IH]; intros pm first NE x.
+  - cbn. unfold total_distinct. cbn. lia.
+  - rewrite union_doms_cons. cbn [concat]. rewrite in_app_iff, block_range.
+    assert (Hg : snd g <> []) by (apply NE; left; reflexivity).
+    rewrite IH by (intros g' Hg'; apply NE; right; exact Hg').
+    rewrite (lmax_block first pm (snd g) Hg). pose proof (ndistinct_pos _ Hg) as P.
+    unfold total_distinct. cbn [map fold_right]. fold (total_distinct r). unfold ubase. destruct first; lia.
+Qed.
+
+Theorem union_domain_indices :
+  (forall mode pm first d i j, i < length d -> j < length d ->
+     (nth i (union_dom_of mode pm first d) 0 = nth j (union_dom_of mode pm first d) 0 <-> nth i d 0 = nth j d 0)) /\
+  (forall mode (gs : list tgrid) pm first j j' x y, (forall g, In g gs -> snd g <> []) -> j < j' ->
+     In x (nth j (union_doms mode pm first gs) []) -> In y (nth j' (union_doms mode pm first gs) []) -> x < y) /\
+  (forall (gs : list tgrid) sw mode ds, length ds = length gs ->
+     snd (union gs sw mode (Some ds)) =
+     concat (map (fun p => repeat (snd p) (length (t_els (fst p)))) (combine gs ds))) /\
+  (forall (gs : list tgrid), (forall g, In g gs -> snd g <> []) ->
+     forall x, In x (concat (union_doms 0 0 true gs)) <-> x < total_distinct gs).
+Proof.
+  split; [exact union_dom_of_partition|]. split; [exact union_doms_separated|]. split; [exact union_given_dom|].
+  intros gs NE x. rewrite (union_normalised gs 0 true NE x). unfold ubase. lia.
+Qed.
